@@ -890,6 +890,8 @@ class SSeq:
         return x if isinstance(x, int) else SInt(x, self.elem_bits)
 
     def realise(self, why="seq"):
+        if self.is_concrete():
+            return self.concrete()
         c = Ctx.cur
         return self._native(tuple(c.realise(x, why) for x in self.b))
 
